@@ -734,7 +734,7 @@ class Resolver:
                 if q in self.repo.funcs:
                     return [self.repo.funcs[q]], "resolved"
                 return [], "unresolved"
-            return self._callees_of_type(t, call)
+            return self._callees_of_type(t, call, exact=True)
         if isinstance(fn, ast.Attribute):
             # super(...).m(...)
             if isinstance(fn.value, ast.Call) and isinstance(fn.value.func, ast.Name) and fn.value.func.id == "super":
@@ -788,14 +788,14 @@ class Resolver:
         t = self.expr_type(fn, f, env)
         return self._callees_of_type(t, call) if t else ([], "unresolved")
 
-    def _callees_of_type(self, t: T, call) -> Tuple[List[Func], str]:
+    def _callees_of_type(self, t: T, call, exact: bool = False) -> Tuple[List[Func], str]:
         if not t:
             return [], "unresolved"
         if t[0] == "type":
             c = self.repo.classes.get(t[1])
             inits = []
             if c:
-                for k in self.repo.subclasses(c):
+                for k in ([c] if exact else self.repo.subclasses(c)):
                     init = self.repo.lookup_member(k, "__init__", "method")
                     if init and init not in inits:
                         inits.append(init)
